@@ -9,7 +9,11 @@ from pathlib import Path
 from vsym.pathex import And, Eq, Implies, Not, Or
 from vsym.runner import Ob
 
-BODY = "def price(q):\n    return q * 3975\n"
+from vsym import triggers
+
+# every generated source file carries an over-deep function: the nesting linter has no path-based exemptions
+BODY = triggers.T["nest.py"][3]
+BODY_TS = triggers.T["nest.ts"][3]
 
 
 def vocab():
@@ -51,15 +55,15 @@ def make_h(tier):
         file_names = ["a.py", "b.ts"] + ["m" + e + ".py" for e in (exts if not quick else exts[:3])] + \
                      ["builder.py", "build.py", "c" + exts[0]]
         d1 = ctx.pick("dir1", dir_names)
-        d2 = ctx.pick("dir2", ("sub", "build", "node_modules") if quick else ("sub", "build", "node_modules", "venvx", ".git"))
+        d2 = ctx.pick("dir2", ("sub", "build", "node_modules"))
         fname = ctx.pick("file", file_names)
         recursive = ctx.flag("recursive")
         ig = ctx.pick("ignore_pattern", ("none", "dir1/", "build/", "*.ts", "dir1/file", "dir1/**", "**/file"))
-        if quick and ig not in ("none", "build/", "dir1/") and d1 not in ("pkg", "build", "buildx"):
+        if ig not in ("none", "build/", "dir1/") and d1 not in ("pkg", "build", "buildx", "xbuild", "BUILD", "node_modules", ".hidden"):
             ctx.assume(False)
         src_kind = ctx.pick("ignore_source", (".thailintignore", "config-ignore")) if ig != "none" else "none"
         explicit = ctx.flag("also_named_explicitly")
-        entry = ctx.pick("entry", ("library", "cli")) if not quick else "library"
+        entry = ctx.pick("entry", ("library", "cli")) if (not quick and ig == "none") else "library"
         root = Path(tempfile.mkdtemp(prefix="c14-"))
         try:
             (root / ".git").mkdir()
@@ -67,7 +71,7 @@ def make_h(tier):
             for rel in files:
                 p = root / rel
                 p.parent.mkdir(parents=True, exist_ok=True)
-                p.write_text(BODY if not rel.endswith(".ts") else "function price(q: number) {\n  return q * 3975;\n}\n")
+                p.write_text(BODY if not rel.endswith(".ts") else BODY_TS)
             pattern = {"none": None, "dir1/": d1 + "/", "build/": "build/", "*.ts": "*.ts", "dir1/file": f"{d1}/{fname}",
                        "dir1/**": d1 + "/**", "**/file": "**/" + fname}[ig]
             if pattern is not None:
@@ -81,12 +85,12 @@ def make_h(tier):
                 vs = o.lint_directory(root, recursive=recursive)
                 if explicit:
                     vs += Orchestrator(project_root=root).lint_files([root / f for f in files])
-                got = {str(Path(v.file_path).relative_to(root)) for v in vs if v.rule_id.startswith("magic-numbers")}
+                got = {str(Path(v.file_path).relative_to(root)) for v in vs if v.rule_id.startswith("nesting.")}
             else:
                 import json
                 from click.testing import CliRunner
                 from src.cli_main import cli
-                args = ["magic-numbers", "--format", "json"] + ([] if recursive else ["--no-recursive"]) + [str(root)]
+                args = ["nesting", "--format", "json"] + ([] if recursive else ["--no-recursive"]) + [str(root)]
                 if explicit:
                     args += [str(root / f) for f in files]
                 r = CliRunner().invoke(cli, args)
@@ -120,7 +124,7 @@ def make_h(tier):
 
 
 ASSUMPTIONS = (
-    "every generated source file carries one magic number, so the set of files with a magic-numbers finding is the set of files linted",
+    "every generated source file carries one over-deep function, so the set of files with a nesting finding is the set of files linted (the nesting linter has no path-based exemptions of its own)",
     "ignore patterns are the documented forms dir/, *.ext, path/file, dir/**, **/name with gitignore meaning (dir/ = a directory of that name at any depth)",
     "symlinks and unreadable directories are outside the claim",
 )
